@@ -87,9 +87,11 @@ class ForcePlatformsCalibrationDataBlock(Block):
         **kwargs,
     ) -> None:
         super().__init__(**kwargs)
-        self._platforms: List[ForcePlatformInfo] = platforms or []
+        self._platforms: List[ForcePlatformInfo] = []
         self._platformMap = []
         self.format = format
+        for platform in platforms or []:
+            self.add_platform(platform)
 
     @staticmethod
     def _build(stream, format) -> "ForcePlatformsCalibrationDataBlock":
